@@ -152,6 +152,12 @@ func c25Body(sc c25Scenario, obs *c25Obs) func() {
 			}))
 		}
 		vsched.WaitFor(ths...) // the queue worker keeps running until Close
+		if sc.Truncate {
+			// one more cut + write after writer, readers and truncation have all finished: the mapper's
+			// idea of the next file must still agree with the files on disk
+			cdm.CutNewFile()
+			write(4)
+		}
 		// everything is written now: all non-truncated refs must be readable
 		for _, w := range obs.written {
 			seq, _ := w.ref.Unpack()
